@@ -154,103 +154,114 @@ func TestVerifC11(t *testing.T) {
 		depth = 5
 	}
 	X := stores["B"].accountPub()
-	G := groups[0]
-	expected := map[string]string{} // first value seen per derivation name
+	// the cache of computed agreement keys is addressed by (purpose, public key): the second configuration uses ONE
+	// public key for both purposes (a multi-member group whose identifier is the contact's account key)
+	colliding := detGroupMultiMember(seed, "G-colliding")
+	colliding.PublicKey = mustBytes(X.Raw())
 	var transitions, nstates int64
-	seenState := map[string]bool{}
-	var rec func(s st)
-	rec = func(s st) {
-		key := s.P.ds.dump() + "|" + s.Q.ds.dump()
-		if seenState[key] && len(s.hist) > 0 {
-			// identical persistent state reached before: same futures (nothing lives outside the datastores)
-		} else {
-			seenState[key] = true
-			nstates++
-		}
-		if len(s.hist) == depth {
-			return
-		}
-		for _, op := range ops {
-			n := st{P: s.P.cloneParty(), Q: s.Q.cloneParty(), qImp: s.qImp, pdev: s.pdev, qdev: s.qdev, hist: append(append([]string{}, s.hist...), op)}
-			transitions++
-			chk := func(name, val string) {
-				if prev, ok := expected[name]; ok && prev != val {
-					viol("derivation-differs", fmt.Sprintf("%s differs after %v", name, n.hist), n.hist)
-				}
-				expected[name] = val
+	for _, cfg := range []struct {
+		name string
+		G    *protocoltypes.Group
+	}{{"distinct-keys", groups[0]}, {"group-key-equals-contact-key", colliding}} {
+		G := cfg.G
+		// what the other side derives for this pair is the reference for the contact group; the member key's reference is
+		// the first value seen (every history starts from the same account keys)
+		expected := map[string]string{"contact": pairGroup["BA"]}
+		seenState := map[string]bool{}
+		var rec func(s st)
+		rec = func(s st) {
+			key := s.P.ds.dump() + "|" + s.Q.ds.dump()
+			if seenState[key] && len(s.hist) > 0 {
+				// identical persistent state reached before: same futures (nothing lives outside the datastores)
+			} else {
+				seenState[key] = true
+				nstates++
 			}
-			switch op {
-			case "P.contact":
-				g, err := n.P.st.GetGroupForContact(X)
-				must(err)
-				chk("contact", groupSummary(g))
-			case "P.member":
-				md, err := n.P.st.GetOwnMemberDeviceForGroup(G)
-				must(err)
-				chk("member", rawPub(md.Member()))
-				if n.pdev != "" && n.pdev != rawPub(md.Device()) {
-					viol("device-key-unstable", fmt.Sprintf("P's device key for the group changed in history %v", n.hist), n.hist)
-				}
-				n.pdev = rawPub(md.Device())
-			case "P.reopen":
-				n.P = n.P.cloneParty()
-			case "Q.reopen":
-				n.Q = n.Q.cloneParty()
-			case "Q.import", "Q.import-again":
-				a, b, err := n.P.st.ExportAccountKeysForBackup()
-				must(err)
-				before := n.Q.ds.dump()
-				err = n.Q.st.ImportAccountKeys(a, b)
-				// Q "has an account" once it imported, or once it derived anything (derivations generate an account on demand)
-				qHas := n.qImp || qUsed(s.hist)
-				rep.Eval(fmt.Sprintf("seq-import/q-has-account=%v/err=%v", qHas, err != nil))
-				if qHas && err == nil {
-					viol("import-onto-existing-account", fmt.Sprintf("import accepted although the store already has an account (history %v)", n.hist), n.hist)
-				}
-				if !qHas && err != nil {
-					viol("import-refused-on-fresh-store", fmt.Sprintf("history %v: %v", n.hist, err), n.hist)
-				}
-				if err != nil && n.Q.ds.dump() != before {
-					viol("refused-import-changed-keystore", fmt.Sprintf("history %v", n.hist), n.hist)
-				}
-				if err == nil {
-					n.qImp = true
-				}
-			case "Q.contact":
-				g, err := n.Q.st.GetGroupForContact(X)
-				must(err)
-				if n.qImp {
-					chk("contact", groupSummary(g))
-				}
-			case "Q.member":
-				md, err := n.Q.st.GetOwnMemberDeviceForGroup(G)
-				must(err)
-				if n.qdev != "" && n.qdev != rawPub(md.Device()) {
-					viol("device-key-unstable", fmt.Sprintf("Q's device key for the group changed in history %v", n.hist), n.hist)
-				}
-				n.qdev = rawPub(md.Device())
-				if n.qImp {
-					chk("member", rawPub(md.Member()))
-					if n.pdev != "" && n.pdev == rawPub(md.Device()) {
-						viol("device-key-copied-by-import", fmt.Sprintf("history %v", n.hist), n.hist)
+			if len(s.hist) == depth {
+				return
+			}
+			for _, op := range ops {
+				n := st{P: s.P.cloneParty(), Q: s.Q.cloneParty(), qImp: s.qImp, pdev: s.pdev, qdev: s.qdev, hist: append(append([]string{}, s.hist...), op)}
+				transitions++
+				chk := func(name, val string) {
+					if prev, ok := expected[name]; ok && prev != val {
+						viol("derivation-differs", fmt.Sprintf("%s differs after %v (%s)", name, n.hist, cfg.name), map[string]interface{}{"configuration": cfg.name, "history": n.hist})
 					}
-					acct, _, err := n.Q.st.GetGroupForAccount()
+					expected[name] = val
+				}
+				switch op {
+				case "P.contact":
+					g, err := n.P.st.GetGroupForContact(X)
+					must(err)
+					chk("contact", groupSummary(g))
+				case "P.member":
+					md, err := n.P.st.GetOwnMemberDeviceForGroup(G)
+					must(err)
+					chk("member", rawPub(md.Member()))
+					if n.pdev != "" && n.pdev != rawPub(md.Device()) {
+						viol("device-key-unstable", fmt.Sprintf("P's device key for the group changed in history %v", n.hist), n.hist)
+					}
+					n.pdev = rawPub(md.Device())
+				case "P.reopen":
+					n.P = n.P.cloneParty()
+				case "Q.reopen":
+					n.Q = n.Q.cloneParty()
+				case "Q.import", "Q.import-again":
+					a, b, err := n.P.st.ExportAccountKeysForBackup()
+					must(err)
+					before := n.Q.ds.dump()
+					err = n.Q.st.ImportAccountKeys(a, b)
+					// Q "has an account" once it imported, or once it derived anything (derivations generate an account on demand)
+					qHas := n.qImp || qUsed(s.hist)
+					rep.Eval(fmt.Sprintf("seq-import/q-has-account=%v/err=%v", qHas, err != nil))
+					if qHas && err == nil {
+						viol("import-onto-existing-account", fmt.Sprintf("import accepted although the store already has an account (history %v)", n.hist), n.hist)
+					}
+					if !qHas && err != nil {
+						viol("import-refused-on-fresh-store", fmt.Sprintf("history %v: %v", n.hist, err), n.hist)
+					}
+					if err != nil && n.Q.ds.dump() != before {
+						viol("refused-import-changed-keystore", fmt.Sprintf("history %v", n.hist), n.hist)
+					}
+					if err == nil {
+						n.qImp = true
+					}
+				case "Q.contact":
+					g, err := n.Q.st.GetGroupForContact(X)
+					must(err)
+					if n.qImp {
+						chk("contact", groupSummary(g))
+					}
+				case "Q.member":
+					md, err := n.Q.st.GetOwnMemberDeviceForGroup(G)
+					must(err)
+					if n.qdev != "" && n.qdev != rawPub(md.Device()) {
+						viol("device-key-unstable", fmt.Sprintf("Q's device key for the group changed in history %v", n.hist), n.hist)
+					}
+					n.qdev = rawPub(md.Device())
+					if n.qImp {
+						chk("member", rawPub(md.Member()))
+						if n.pdev != "" && n.pdev == rawPub(md.Device()) {
+							viol("device-key-copied-by-import", fmt.Sprintf("history %v", n.hist), n.hist)
+						}
+						acct, _, err := n.Q.st.GetGroupForAccount()
+						must(err)
+						chk("account-group", hex.EncodeToString(acct.PublicKey)+"/"+hex.EncodeToString(acct.Secret))
+					}
+				}
+				if op[0] == 'P' {
+					acct, _, err := n.P.st.GetGroupForAccount()
 					must(err)
 					chk("account-group", hex.EncodeToString(acct.PublicKey)+"/"+hex.EncodeToString(acct.Secret))
 				}
+				rec(n)
 			}
-			if op[0] == 'P' {
-				acct, _, err := n.P.st.GetGroupForAccount()
-				must(err)
-				chk("account-group", hex.EncodeToString(acct.PublicKey)+"/"+hex.EncodeToString(acct.Secret))
-			}
-			rec(n)
 		}
+		rec(st{P: newParty(seed, "A", "1", 2, 2, false), Q: mkFresh()})
+		rep.Sample(map[string]interface{}{"kind": "sequences", "configuration": cfg.name, "ops": ops, "depth": depth, "transitions_so_far": transitions, "distinct_persistent_states_so_far": nstates})
 	}
-	rec(st{P: newParty(seed, "A", "1", 2, 2, false), Q: mkFresh()})
 	rep.AddStates(nstates)
 	rep.AddTransitions(transitions)
-	rep.Sample(map[string]interface{}{"kind": "sequences", "ops": ops, "depth": depth, "transitions": transitions, "distinct_persistent_states": nstates})
 
 	// ---- (4) import refusal catalogue
 	P := newParty(seed, "A", "1", 2, 2, false)
@@ -354,8 +365,8 @@ func TestVerifC11(t *testing.T) {
 		must(q.st.ImportAccountKeys(accB, proofB))
 		gp, _ := P.st.GetGroupForContact(X)
 		gq, _ := q.st.GetGroupForContact(X)
-		mp, _ := P.st.GetOwnMemberDeviceForGroup(G)
-		mq, _ := q.st.GetOwnMemberDeviceForGroup(G)
+		mp, _ := P.st.GetOwnMemberDeviceForGroup(groups[0])
+		mq, _ := q.st.GetOwnMemberDeviceForGroup(groups[0])
 		ap, _, _ := P.st.GetGroupForAccount()
 		aq, _, _ := q.st.GetGroupForAccount()
 		ok := groupSummary(gp) == groupSummary(gq) && rawPub(mp.Member()) == rawPub(mq.Member()) && bytes.Equal(ap.PublicKey, aq.PublicKey) && bytes.Equal(ap.Secret, aq.Secret)
